@@ -83,6 +83,20 @@ type c18Case struct {
 	Indexed     bool `json:"indexed,omitempty"`     // streamed tool calls carry Index = position
 	ToolCalling bool `json:"toolCalling,omitempty"` // config.ToolCallingModel instead of config.Model
 	Pipe        bool `json:"pipe,omitempty"`        // model streams through schema.Pipe + goroutine
+	// kind "shared" (c18_shared.go): several runs started from ONE message slice of the caller
+	// whose backing array has `spare` cells behind its length, interleaved node execution by
+	// node execution as `sched` says (run numbers; afterwards round-robin until all have
+	// finished). Script is unused; every run has its own.
+	Spare int       `json:"spare,omitempty"`
+	Runs  []c18SRun `json:"runs,omitempty"`
+	Sched []int     `json:"sched,omitempty"`
+	// implementation side only: "one" agent serves all runs, or "each" run has its own
+	Agents string `json:"agents,omitempty"`
+}
+
+type c18SRun struct {
+	Mode   string     `json:"mode"` // generate | stream
+	Script []c18Reply `json:"script"`
 }
 
 type c18Ev struct {
@@ -497,16 +511,37 @@ type c18Built struct {
 	note  string
 }
 
-func c18Build(c *c18Case) (*c18Built, error) {
+// c18Parts: the chat model and the tools an agent is built from, when they are not the plain
+// scripted ones (the shared-slice family routes every call to the run it belongs to).
+type c18Parts struct {
+	model   model.ChatModel
+	tcModel model.ToolCallingChatModel
+	tools   []tool.BaseTool
+}
+
+func c18Build(c *c18Case) (*c18Built, error) { return c18BuildWith(c, nil) }
+
+func c18BuildWith(c *c18Case, parts *c18Parts) (*c18Built, error) {
 	rec := &c18Recorder{}
 	mdl := &c18Model{c: c, rec: rec}
 	cfg := &react.AgentConfig{MaxStep: c.MaxStep}
-	if c.ToolCalling {
+	switch {
+	case parts != nil && c.ToolCalling:
+		cfg.ToolCallingModel = parts.tcModel
+	case parts != nil:
+		cfg.Model = parts.model
+	case c.ToolCalling:
 		cfg.ToolCallingModel = c18TCModel{mdl}
-	} else {
+	default:
 		cfg.Model = mdl
 	}
+	if parts != nil {
+		cfg.ToolsConfig.Tools = parts.tools
+	}
 	for _, t := range c.Tools {
+		if parts != nil {
+			break
+		}
 		impl := &c18ToolImpl{t: t, rec: rec}
 		if t.Streamable {
 			cfg.ToolsConfig.Tools = append(cfg.ToolsConfig.Tools, c18Streamable{impl})
@@ -602,6 +637,24 @@ func c18ErrClass(err error) string {
 	return "other"
 }
 
+// c18NodeHandler records the node executions (chat / tools / direct_return) of one run.
+func c18NodeHandler(rec *c18Recorder) callbacks.Handler {
+	return callbacks.NewHandlerBuilder().
+		OnStartFn(func(ctx context.Context, info *callbacks.RunInfo, in callbacks.CallbackInput) context.Context {
+			if n := c18NodeOf(info); n != "" {
+				rec.node(n)
+			}
+			return ctx
+		}).
+		OnStartWithStreamInputFn(func(ctx context.Context, info *callbacks.RunInfo, in *schema.StreamReader[callbacks.CallbackInput]) context.Context {
+			in.Close()
+			if n := c18NodeOf(info); n != "" {
+				rec.node(n)
+			}
+			return ctx
+		}).Build()
+}
+
 // c18RunMode runs Generate or Stream (concatenated) once on the built agent.
 func c18RunMode(b *c18Built, c *c18Case, stream bool) (run c18Run, class string) {
 	b.rec.mu.Lock()
@@ -610,21 +663,7 @@ func c18RunMode(b *c18Built, c *c18Case, stream bool) (run c18Run, class string)
 	b.mdl.mu.Lock()
 	b.mdl.pos = 0
 	b.mdl.mu.Unlock()
-	h := callbacks.NewHandlerBuilder().
-		OnStartFn(func(ctx context.Context, info *callbacks.RunInfo, in callbacks.CallbackInput) context.Context {
-			if n := c18NodeOf(info); n != "" {
-				b.rec.node(n)
-			}
-			return ctx
-		}).
-		OnStartWithStreamInputFn(func(ctx context.Context, info *callbacks.RunInfo, in *schema.StreamReader[callbacks.CallbackInput]) context.Context {
-			in.Close()
-			if n := c18NodeOf(info); n != "" {
-				b.rec.node(n)
-			}
-			return ctx
-		}).Build()
-	copt := compose.WithCallbacks(h)
+	copt := compose.WithCallbacks(c18NodeHandler(b.rec))
 	opt := agent.WithComposeOptions(copt)
 	var in []*schema.Message
 	for _, m := range c.Orig {
@@ -1666,7 +1705,7 @@ func c18Check(ctx *vh.Ctx, c *c18Case, raw json.RawMessage, topoModel map[bool]j
 }
 
 func runC18(ctx *vh.Ctx) error {
-	ctx.Res.Rule = "random ReAct scripts: 1-8 (hosted: up to 12) replies with 0-3 tool calls streamed in 1-9 chunks (40% of the tool-calling turns as deltas keyed by Index: head with id and name, arguments in 1-3 pieces, id / name now and then repeated, indexes ascending / descending / with gaps / permuted, one call now and then whole without Index, the deltas of the calls back to back / one per call per chunk / one per chunk round-robin / merged at random; empty leading/middle chunks, chunks carrying only provider metadata — Extra entries / ResponseMeta usage, finish reason / Name — in front of, between and on content and tool-call chunks, calls in the first non-empty chunk / spread / behind content), 1-4 tools (echo/const/fail, invokable/streamable, unknown names, duplicate and empty call ids), return-directly sets, MaxStep <0/0/1-30, MessageModifier off/system/tail, default or whole-stream checker; host = Agent.Generate/Stream, or the graph from Agent.ExportGraph() added with its options to a parent chain / parent graph run with Invoke/Stream; both modes on the real agent vs the Lean model (model inputs, node executions, result/error class), Generate vs Stream, graph topology via compile callback; a systematic corpus first (looping and long scripts x MaxStep below/at/above compose's default x host; one metadata-only head chunk per metadata kind; 2-3 parallel calls as deltas x arrangement x index order x checker / host / return-directly / repeated id / unindexed call); non-trivial = at least one tools round or the step limit was hit; distinct by (chunk shapes of every reply, tools, return-directly set, MaxStep, modifier, checker, #orig, host)"
+	ctx.Res.Rule = "random ReAct scripts: 1-8 (hosted: up to 12) replies with 0-3 tool calls streamed in 1-9 chunks (40% of the tool-calling turns as deltas keyed by Index: head with id and name, arguments in 1-3 pieces, id / name now and then repeated, indexes ascending / descending / with gaps / permuted, one call now and then whole without Index, the deltas of the calls back to back / one per call per chunk / one per chunk round-robin / merged at random; empty leading/middle chunks, chunks carrying only provider metadata — Extra entries / ResponseMeta usage, finish reason / Name — in front of, between and on content and tool-call chunks, calls in the first non-empty chunk / spread / behind content), 1-4 tools (echo/const/fail, invokable/streamable, unknown names, duplicate and empty call ids), return-directly sets, MaxStep <0/0/1-30, MessageModifier off/system/tail, default or whole-stream checker; host = Agent.Generate/Stream, or the graph from Agent.ExportGraph() added with its options to a parent chain / parent graph run with Invoke/Stream; both modes on the real agent vs the Lean model (model inputs, node executions, result/error class), Generate vs Stream, graph topology via compile callback; a systematic corpus first (looping and long scripts x MaxStep below/at/above compose's default x host; one metadata-only head chunk per metadata kind; 2-3 parallel calls as deltas x arrangement x index order x checker / host / return-directly / repeated id / unindexed call); family shared-input (12% of the random cases + a corpus of 280): 1-3 runs with scripts of their own started from ONE message slice whose backing array has 0-8 spare cells behind its length, Generate / Stream mixed, one agent for all or one per run, every run parked at the end of each model call and tools round and released in a scripted order (then round-robin) so that exactly one run moves at a time; per run model inputs / node executions / result vs the Lean heap model (= the run alone), and the caller's backing array cell by cell; non-trivial = at least one tools round or the step limit was hit; distinct by (chunk shapes of every reply, tools, return-directly set, MaxStep, modifier, checker, #orig, host)"
 	topoModel := map[bool]json.RawMessage{}
 	for _, rd := range []bool{false, true} {
 		raw, err := ctx.Oracle.Ask("C18", map[string]any{"kind": "topology", "rd": rd})
@@ -1679,6 +1718,9 @@ func runC18(ctx *vh.Ctx) error {
 		raw, err := ctx.Oracle.Ask("C18", c)
 		if err != nil {
 			return err
+		}
+		if c.Kind == "shared" {
+			return c18CheckShared(ctx, c, raw)
 		}
 		return c18Check(ctx, c, raw, topoModel)
 	}
@@ -1699,6 +1741,12 @@ func runC18(ctx *vh.Ctx) error {
 			return err
 		}
 	}
+	// runs started from one slice with spare capacity, interleaved: modes x schedules x spare cells
+	for _, c := range c18SharedCorpus() {
+		if err := one(c); err != nil {
+			return err
+		}
+	}
 	// (seeds k and k+1 of vh.Rand are one draw apart; forking passes through the mixer)
 	rng := ctx.Rng.Fork()
 	n := ctx.N(8000, 60000)
@@ -1708,6 +1756,9 @@ func runC18(ctx *vh.Ctx) error {
 		var qs []any
 		for i := 0; i < batch && done+i < n; i++ {
 			c := c18Gen(rng)
+			if rng.Chance(12) {
+				c = c18GenShared(rng, c)
+			}
 			cs = append(cs, c)
 			qs = append(qs, c)
 		}
@@ -1719,7 +1770,12 @@ func runC18(ctx *vh.Ctx) error {
 			if !ctx.TimeLeft() {
 				break
 			}
-			if err := c18Check(ctx, c, raws[i], topoModel); err != nil {
+			if c.Kind == "shared" {
+				err = c18CheckShared(ctx, c, raws[i])
+			} else {
+				err = c18Check(ctx, c, raws[i], topoModel)
+			}
+			if err != nil {
 				return err
 			}
 		}
